@@ -21,6 +21,12 @@
  *   - everything else (address column, separators, blanks of addresses outside the range, line terminator) carries no
  *     attribute at all; the blank that precedes the two hex digits of a byte is not constrained (a blank shows neither bold nor red).
  * Without USE_COLOR no escape character may appear (the ordinary checks fail on it), with or without prev.
+ * Two ways of capturing the coloured output (cells): the default keeps the escape sequences inline in the captured text and removes
+ * them here (every text position after the first conditional highlight is then symbolic: minutes per cell); EV defined: the
+ * wrapper's sink records every write_data call that starts with ESC as an out-of-band event {text position, length, bytes} and
+ * appends all other calls to the text, so the text positions are concrete; the event bytes are decoded here by the same SGR rules
+ * and applied at their positions. An ESC anywhere else stays in the text and fails the dump parser. In both modes all attributes
+ * must be off at the end of the text.
  * vasprintf = exact hex model stub_printf.h ("%0*lX", " %02X"). phosg::format_color_escape (variadic: clang lowers va_arg to
  * x86-64 register-save-area arithmetic that has no meaning for CBMC) is cut and replaced IN THE GENERATED-C MODES by the exact
  * model below; the native real build runs the real function and translation validation compares the texts. */
@@ -29,6 +35,9 @@
 #include "stub_printf.h"
 int64_t w_format_data(uint8_t* data, uint64_t n, uint64_t c1, uint64_t c2, uint64_t start_address, uint64_t flags, uint8_t* out, uint64_t cap);
 int64_t w_format_data_diff(uint8_t* data, uint8_t* prev, uint64_t n, uint64_t c1, uint64_t c2, uint64_t pc, uint64_t start_address, uint64_t flags, uint8_t* out, uint64_t cap);
+
+int64_t w_format_data_diff_ev(uint8_t* data, uint8_t* prev, uint32_t has_prev, uint64_t n, uint64_t c1, uint64_t c2, uint64_t pc, uint64_t start_address, uint64_t flags, uint8_t* out, uint64_t cap,
+                              uint64_t* ev_pos, uint8_t* ev_len, uint8_t* ev_bytes, uint64_t ev_cap, uint64_t* ev_n);
 
 #define F_COLOR 0x01
 #define F_ASCII 0x02
@@ -41,8 +50,13 @@ int64_t w_format_data_diff(uint8_t* data, uint8_t* prev, uint64_t n, uint64_t c1
 #define ASCW ((FLAGS & F_ASCII) ? (((FLAGS & F_SKIPSEP) ? 1 : 3) + 16) : 0)
 #define LW (WIDTH + SEPW + 48 + ASCW + 1)
 /* colour: per byte at most ESC[1;31m + ESC[0m around the hex field and around the ASCII character, ESC[7m + ESC[0m inside */
+#ifdef EV
+#define ESCW 0
+#else
 #define ESCW (COLOR ? SIZE * (2 * 11 + 8) : 0)
+#endif
 #define CAP (NL * LW + ESCW + 1)
+#define MAXEV (6 * SIZE) /* per byte: on/off around the hex field, on/off around the ASCII character, inverse on/off inside */
 #define A_BOLD 1
 #define A_RED 2
 #define A_INV 4
@@ -87,9 +101,9 @@ void X__ZN5phosg19format_color_escapeB5cxx11ENS_14TerminalFormatEz(uint8_t* ret,
 }
 #endif
 
-#if COLOR
+#if COLOR && !defined(EV)
 /* remove the escape sequences from raw[0..r), remember the attribute state of every remaining character; 0 = malformed */
-static int strip_escapes(const uint8_t* raw, uint64_t r, uint8_t* text, uint8_t* attr, uint64_t* pn_out) {
+static int strip_escapes(const uint8_t* raw, uint64_t r, uint8_t* text, uint8_t* attr, uint64_t* pn_out, uint8_t* final_attr) {
   uint64_t pn = 0, ip = 0;
   uint8_t cur = 0;
   int esc_ok = 1;
@@ -117,7 +131,44 @@ static int strip_escapes(const uint8_t* raw, uint64_t r, uint8_t* text, uint8_t*
     if (!done) esc_ok = 0;
   }
   *pn_out = pn;
+  *final_attr = cur;
   return esc_ok && ip == r;
+}
+#endif
+#if COLOR && defined(EV)
+/* one captured escape sequence b[0..len) (len <= 8): ESC [ n (; n)* m; its effect on the attribute state is new = (old & *am) | *om */
+static int decode_event(const uint8_t* b, uint32_t len, uint8_t* am, uint8_t* om) {
+  uint8_t a_m = 0xFF, o_m = 0;
+  *am = 0xFF; *om = 0;
+  if (len < 4 || len > 8 || b[0] != 0x1B || b[1] != '[') return 0;
+  uint32_t ip = 2;
+  int done = 0, ok = 1;
+  for (int a = 0; a < 3; a++) if (!done) {
+    uint32_t v = 0, nd = 0;
+    for (int d = 0; d < 2; d++) if (ip < len && b[ip] >= '0' && b[ip] <= '9') { v = v * 10u + (uint32_t)(b[ip] - '0'); nd++; ip++; }
+    if (!nd) { ok = 0; done = 1; }
+    else if (v == 0) { a_m = 0; o_m = 0; }
+    else if (v == 1) o_m |= A_BOLD;
+    else if (v == 31) o_m |= A_RED;
+    else if (v == 7) o_m |= A_INV;
+    else { ok = 0; done = 1; }
+    if (!done) {
+      if (ip < len && b[ip] == ';') ip++;
+      else if (ip < len && b[ip] == 'm') { ip++; done = 1; }
+      else { ok = 0; done = 1; }
+    }
+  }
+  *am = a_m; *om = o_m;
+  return ok && done && ip == len;
+}
+/* attr[p] = attribute state of the character at text position p = all events at positions <= p applied in order (own function: its
+ * loop over the CAP text positions gets its own unwinding bound) */
+static void apply_events(uint8_t* attr, const uint64_t* ev_pos, const uint8_t* ev_am, const uint8_t* ev_om, uint64_t ev_n) {
+  uint8_t cur = 0;
+  for (int p = 0; p < CAP; p++) {
+    for (int k = 0; k < MAXEV; k++) if ((uint64_t)k < ev_n && ev_pos[k] == (uint64_t)p) cur = (uint8_t)((cur & ev_am[k]) | ev_om[k]);
+    attr[p] = cur; /* p == r: the state after the last character */
+  }
 }
 #endif
 
@@ -132,9 +183,21 @@ void harness(void) {
   (void)reaches_top; /* cells with reaches_top are the known-finding probes */
 #ifdef DIFF
   in_bytes(prev, SIZE);
-  int64_t r = w_format_data_diff(data, prev, SIZE, c1, c2, PC, start, FLAGS, raw, CAP);
 #else
   for (int i = 0; i < SIZE; i++) prev[i] = data[i];
+#endif
+#ifdef EV
+  uint64_t ev_pos[MAXEV + 1], ev_n = 0;
+  uint8_t ev_len[MAXEV + 1], ev_bytes[8 * MAXEV + 8];
+#ifdef DIFF
+  int64_t r = w_format_data_diff_ev(data, prev, 1, SIZE, c1, c2, PC, start, FLAGS, raw, CAP, ev_pos, ev_len, ev_bytes, MAXEV, &ev_n);
+#else
+  int64_t r = w_format_data_diff_ev(data, prev, 0, SIZE, c1, c2, PC, start, FLAGS, raw, CAP, ev_pos, ev_len, ev_bytes, MAXEV, &ev_n);
+#endif
+  OBS(ev_n);
+#elif defined(DIFF)
+  int64_t r = w_format_data_diff(data, prev, SIZE, c1, c2, PC, start, FLAGS, raw, CAP);
+#else
   int64_t r = w_format_data(data, SIZE, c1, c2, start, FLAGS, raw, CAP);
 #endif
   OBS(r);
@@ -143,12 +206,28 @@ void harness(void) {
 #if SIZE == 0
   ASSERT(r == 0, "nothing is printed for empty data");
 #else
-#if COLOR
-  uint8_t text[CAP + 1], attr[CAP + 1];
-  uint64_t pn = 0;
-  int esc_ok = strip_escapes(raw, (uint64_t)r, text, attr, &pn);
+#if COLOR && defined(EV)
+  /* apply the captured escape sequences at their text positions */
+  uint8_t* text = raw;
+  uint8_t attr[CAP + 1], ev_am[MAXEV + 1], ev_om[MAXEV + 1];
+  int esc_ok = ev_n <= MAXEV;
+  for (int k = 0; k < MAXEV; k++) if ((uint64_t)k < ev_n) {
+    uint8_t eb[8];
+    for (int j = 0; j < 8; j++) eb[j] = ev_bytes[8 * k + j];
+    if (!decode_event(eb, ev_len[k], &ev_am[k], &ev_om[k])) esc_ok = 0;
+    if (ev_pos[k] > (uint64_t)r || (k > 0 && ev_pos[k] < ev_pos[k - 1])) esc_ok = 0;
+  }
   ASSERT(esc_ok, "escape sequences are well-formed SGR sequences (ESC [ n ; ... m) with attributes 0, 1, 7, 31 only");
   if (!esc_ok) return;
+  apply_events(attr, ev_pos, ev_am, ev_om, ev_n);
+  ASSERT(r < CAP && attr[r < CAP ? r : 0] == 0, "all attributes are off at the end of the text");
+#elif COLOR
+  uint8_t text[CAP + 1], attr[CAP + 1], final_attr = 0;
+  uint64_t pn = 0;
+  int esc_ok = strip_escapes(raw, (uint64_t)r, text, attr, &pn, &final_attr);
+  ASSERT(esc_ok, "escape sequences are well-formed SGR sequences (ESC [ n ; ... m) with attributes 0, 1, 7, 31 only");
+  if (!esc_ok) return;
+  ASSERT(final_attr == 0, "all attributes are off at the end of the text");
   r = (int64_t)pn;
   OBS(r);
 #else
